@@ -331,6 +331,7 @@ class Check:
     corr_module = ""        # e.g. "Corr.C19"
     corr_rel = ""           # e.g. "Corr/C19"
     gen_rels = []           # Gen/* files whose regeneration feeds this property
+    extra_rels = []         # further .v files that must compile (obligations of kind 'generated-table')
     model_desc = ""
     rule = ""
     partial = []            # clauses the theorems do not carry
@@ -358,7 +359,7 @@ def decide(chk, tier, seed):
         tr_ok, markers = run_translator()
         for m in markers:
             broken.append(("translator", m))
-        rc, mk_out = coq_make()
+        rc, mk_out = coq_make(["theories/%s.vo" % r for r in [chk.props_rel, chk.corr_rel] + list(chk.gen_rels) + list(chk.extra_rels)])
         hrc, hout, exe = build_harness(prop)
     if hrc != 0:
         # the implementation does not build with hooks on: nothing can be checked
